@@ -199,19 +199,21 @@ theorem lookup_lshiftMerge (upd : Option α → β → Option α) (a : Fib κ α
       | some v => simp [lookup_cons, hc, haa hc, hu]
     · cases hu : upd none vb <;> simp [hc, ih', lookup_cons]
 
-/-- point lookup after the `*=` loop -/
-theorem lookup_imulMerge (f : α → β → α) (a : Fib κ α) (b : Fib κ β)
+/-- point lookup after the `*=` loops -/
+theorem lookup_imulMerge (f : α → β → α) (g : α → α) (a : Fib κ α) (b : Fib κ β)
     (ha : Sorted a) (hb : Sorted b) (c : κ) :
-    lookup (imulMerge f a b) c =
+    lookup (imulMerge f g a b) c =
       match lookup a c with
       | none => none
       | some x =>
         match lookup b c with
         | some y => some (f x y)
-        | none => some x := by
-  fun_induction imulMerge f a b with
+        | none => some (g x) := by
+  fun_induction imulMerge f g a b with
   | case1 b => simp [lookup_nil]
-  | case2 e r => cases hl : lookup (e :: r) c <;> simp [lookup_nil]
+  | case2 e r =>
+    rw [lookup_map_val (e :: r) (fun _ v => g v) c]
+    cases hl : lookup (e :: r) c <;> simp [lookup_nil]
   | case3 pa ra ca pb rb ih =>
     rw [lookup_cons, lookup_cons, lookup_cons]
     by_cases hc : ca = c
@@ -779,8 +781,8 @@ theorem denseAt_nonEmpty (dflt : ν) : ∀ (d : Nat) (t : Tree κ ν d), WF d t 
         rw [denseAt_presented dflt d t hs c q u hl]
         exact ih u (WF_of_lookup_present ht hl) q
 
-/-- lookup after `a *= b`: an element of `a` is rewritten only where both operands present the
-    coordinate; every other element of `a` is still there -/
+/-- lookup after `a *= b`: an element of `a` is rewritten where both operands present the
+    coordinate and emptied where only `a` presents it -/
 theorem lookup_imulT [Mul ν] (dflt : ν) (d : Nat) (a b : Tree κ ν (d + 1))
     (ha : WF (d + 1) a) (hb : WF (d + 1) b) (c : κ) :
     lookup (show List (κ × Tree κ ν d) from imulT dflt d a b) c =
@@ -789,19 +791,34 @@ theorem lookup_imulT [Mul ν] (dflt : ν) (d : Nat) (a b : Tree κ ν (d + 1))
       | some x =>
         match lookup (present dflt d b) c with
         | some y => some (if isEmpty dflt d x then x else nonEmpty dflt d (mulT dflt d x y))
-        | none => some x := by
+        | none => some (if isEmpty dflt d x then x else dfltTree dflt d) := by
   have hsa := ((WF_succ d a).1 ha).1
   have hsb := sorted_present dflt d b ((WF_succ d b).1 hb).1
   have h := lookup_imulMerge
     (fun (pa pb : Tree κ ν d) => if isEmpty dflt d pa then pa else nonEmpty dflt d (mulT dflt d pa pb))
+    (fun (pa : Tree κ ν d) => if isEmpty dflt d pa then pa else dfltTree dflt d)
     (show List (κ × Tree κ ν d) from a) (present dflt d b) hsa hsb c
   have hdef : (show List (κ × Tree κ ν d) from imulT dflt d a b) =
       imulMerge (fun (pa pb : Tree κ ν d) => if isEmpty dflt d pa then pa else nonEmpty dflt d (mulT dflt d pa pb))
+        (fun (pa : Tree κ ν d) => if isEmpty dflt d pa then pa else dfltTree dflt d)
         (show List (κ × Tree κ ν d) from a) (present dflt d b) := rfl
   rw [hdef, h]
   cases lookup (show List (κ × Tree κ ν d) from a) c with
   | none => rfl
   | some x => cases lookup (present dflt d b) c <;> rfl
+
+/-- the leaf step of fiber * scalar -/
+theorem smulT_leaf [Mul ν] (dflt s : ν) (x : ν) (q : List κ) (h : x ≠ dflt) :
+    denseAt (κ := κ) dflt 0 (smulT (κ := κ) dflt s 0 x) q =
+      if denseAt (κ := κ) dflt 0 x q ≠ dflt then s * denseAt (κ := κ) dflt 0 x q else dflt := by
+  show s * x = if x ≠ dflt then s * x else dflt
+  rw [if_pos h]
+
+/-- the leaf step of fiber + scalar -/
+theorem saddT_leaf [Add ν] (dflt s : ν) (shp : List Nat) (x : ν) (q : List Int) :
+    denseAt (κ := Int) dflt 0 (saddT dflt s 0 shp x) q = s + denseAt (κ := Int) dflt 0 x q := by
+  show s + x = s + x
+  rfl
 
 /-- a point with a non-default dense value is one of the tree's content points -/
 theorem mem_points_of_dense_ne (dflt : ν) : ∀ (d : Nat) (t : Tree κ ν d) (p : List κ),
